@@ -1,5 +1,13 @@
 """Which units / harnesses decide which property, and what each leaves uncovered."""
 PROPS = {
+    "C09": {
+        "claim": "Proof for every counter width 2^n (not only 1,2,4,8,16): Verus discharges (a) the structural postcondition of the real compile::for_while - including the in-place task-stack construction with split_at_mut/copy_from_slice and the pop loop - that the result is for_while_n(f) = for_while_(n-1)(for_while_(n-1)(adapt f)), with for_while_0 and adapt_f proved against their defining terms, and (b) the semantic theorem, by induction on n, that evaluating this term on (acc, ctx) equals `run`: the body is applied to counter values 0,1,2,.. in increasing order with the accumulator threaded and ctx unchanged, a Left ends the loop without evaluating any later iteration, otherwise exactly 2^(2^n) iterations run. Proof is the right level: the term is built by doubling and the claim is about all iterations.",
+        "note": "Assumed: Simplicity combinator algebra + eval (A-simp), vstd specs of Vec/slice operations (split_at_mut, copy_from_slice, pop), derive semantics of Pow2Usize comparisons, Borrow reflexivity; postconditions conditional on the builders returning Ok (typing not modelled); the step function is defined from the body term, so bodies that return something other than Left/Right are covered as 'fails'. Not covered: the call site in Call::compile, ast signature/width checks (ast.rs).",
+        "units": ["forwhile"],
+        "scope": [r"^forwhile/"],
+        "level": "proof",
+        "not_covered": ["call site in Call::compile", "ast signature/width checks"],
+    },
     "C08": {
         "claim": "Proof, for every bound 2^k and every list length below it: Verus discharges the postcondition of the real compile::list_fold (with next_f_array, next_f_fold and the named.rs builders it calls, all cut verbatim from /repo/src on every run) stating that the built Simplicity term evaluates, on (list_val(es, bound), init), to the left fold f(e_k, .. f(e_1, init)) in list order with the accumulator threaded, and fails exactly when an application of f fails. list_val is the documented List layout shared with C07. A proof is the right level because the statement quantifies over all bounds and lengths and the function is a loop building ever larger terms.",
         "note": "Assumed: the Simplicity combinator algebra (each node constructor builds the term it is named after; eval transcribes the Bit Machine), std/vstd specs, derive semantics, Borrow reflexivity. Every postcondition is conditional on the type-inference-dependent builders returning Ok. Not covered: the fold call site in Call::compile, ast signature checks. Bodies of CoreExt::{unit_scribe,assert*,case_*} and PairBuilder::pair are assumed (their unwrap depends on typing).",
